@@ -799,6 +799,7 @@ class Case:
         self.ref = None            # observation of the last edge-free third-core state (+ own assignments)
         self.ref_derived = None
         self.added_by_convert = 0
+        self.noop_add_edge_pending = False  # an addEdgeAssemblies call added nothing and no assembly was added/removed since
 
     # -- bookkeeping
     def w(self, **kw):
@@ -973,7 +974,11 @@ class Case:
                 rec.violation("convert/name-lookup", "getAssemblyByName(%s) returns another object" % a.getName(), w)
                 break
         # 3. totals
-        self.judge_totals(ref, own, st, flags, stale, T, w)
+        pending = self.noop_add_edge_pending and st == "third"
+        self.judge_totals(ref, own, st, flags, stale, T, w, how, pending,
+                          (pre_obs["assems"].get((0, 0)) or {}).get("blocks"), (post_obs["assems"].get((0, 0)) or {}).get("blocks"))
+        if self.added_by_convert or st == "third+edges":
+            self.noop_add_edge_pending = False
         self.kinds_since = set()
         return "convert"
 
@@ -1071,7 +1076,7 @@ class Case:
     def names_before_convert(pre_obs):
         return {e["name"] for e in pre_obs["assems"].values() if "name" in e}
 
-    def judge_totals(self, ref, own, st, flags, stale, T, w):
+    def judge_totals(self, ref, own, st, flags, stale, T, w, how, noop_add_edge_pending, pre_centre, post_centre):
         rec, core = self.rec, self.core
         rec.hit("convert.totals")
         rel = TOLERANCES["x3_rel"]
@@ -1112,24 +1117,38 @@ class Case:
                 if any(not rc(g, 3 * x, rel, 1e-300) for g, x in zip(now_armi[n], own["totals"][n])):
                     failed.append((n, [3 * x for x in own["totals"][n]], now_armi[n]))
         if failed:
-            # name the mechanism from what was observed around the call (not part of the verdict)
+            # Name the mechanism. A known mechanism is only named when the recorded history AND what was observed around the call
+            # are exactly what that mechanism predicts; everything else is reported under .../other.
             names = sorted({f[0] for f in failed})
-            unarmed = [n for n in names if not flags.get(n, True)]
+            unarmed = {n for n in names if not flags.get(n, True)}
             used = list(getattr(T, "listOfVolIntegratedParamsToScale", []) or [])
-            # addEdgeAssemblies is the only armi code that clears the SINCE_LAST_GEOMETRY_TRANSFORMATION flags
-            if stale and any(n not in stale for n in names):
-                mech = "reused-changer-keeps-old-parameter-list"
-            elif unarmed and any(h.startswith("addEdge") for h in self.hist[:-1]):
-                mech = "scaling-flags-cleared-by-addEdgeAssemblies"
-            elif unarmed:
-                mech = "scaling-flags-not-set"
-            else:
-                mech = "other"
-            n, want, got = failed[0]
-            rec.violation("convert/volume-integrated-total-not-x3/%s" % mech,
-                          "total of block parameter %s over the full core is %r; 3 x the third-core total is %r (%d parameters off: %s); parameters armi scaled on the centre: %d of %d" % (
-                              n, _short(got), _short(want), len(names), names[:6], len([x for x in used if x in ref["totals"]]), len(ref["totals"])),
-                          dict(w, off=names[:10], flags_unset_at_entry=unarmed[:10], list_before_convert=stale[:5]))
+
+            def centre_untouched(n):
+                if not pre_centre or not post_centre:
+                    return False
+                return all(x["p"].get(n) == y["p"].get(n) for x, y in zip(pre_centre, post_centre))
+
+            groups = {}
+            for n in names:
+                if how == "reuse" and stale and n not in stale and centre_untouched(n):
+                    # history: this changer already converted once; its parameter list was built then and lacks n
+                    mech = "reused-changer-keeps-old-parameter-list"
+                elif not stale and noop_add_edge_pending and n in unarmed and centre_untouched(n):
+                    # history: an addEdgeAssemblies call that added nothing, no assembly added/removed and n not assigned since
+                    mech = "scaling-flags-cleared-by-addEdgeAssemblies"
+                else:
+                    mech = "other"
+                groups.setdefault(mech, []).append(n)
+            byname = {}
+            for f in failed:
+                byname.setdefault(f[0], f)
+            for mech, ns in sorted(groups.items()):
+                n, want, got = byname[ns[0]]
+                rec.violation("convert/volume-integrated-total-not-x3/%s" % mech,
+                              "total of block parameter %s over the full core is %r; 3 x the third-core total is %r (%d parameters off this way: %s); parameters armi scaled on the centre: %d of %d" % (
+                                  n, _short(got), _short(want), len(ns), ns[:6], len([x for x in used if x in ref["totals"]]), len(ref["totals"])),
+                              dict(w, off=ns[:10], flags_unset_at_entry=sorted(unarmed)[:10], list_before_convert=stale[:5], changer=how,
+                                   noop_addEdge_since_last_change_of_assembly_set=bool(noop_add_edge_pending)))
 
     def has_line0(self):
         return any(line_of(c[0], c[1], self.cu) == "0" for c in (ij(a) for a in self.core))
@@ -1154,6 +1173,8 @@ class Case:
         ok = self.guarded("restorePreviousGeometry", lambda: T.restorePreviousGeometry(self.r) if use_arg else T.restorePreviousGeometry())
         self.T_active = None
         self.T_idle.append(T)
+        if self.added_by_convert:
+            self.noop_add_edge_pending = False
         if not ok:
             return "restore-crashed"
         w = self.w()
@@ -1214,6 +1235,8 @@ class Case:
         if any(line_of(c[0], c[1], self.cu) != "120" for c in new_cells):
             self.rec.violation("addEdge/added-off-the-120-degree-line", "addEdgeAssemblies put assemblies in %s" % (new_cells,), w)
         self.rec.add("edge_assemblies_added", len(self.core) - n0)
+        self.hist[-1] += "=+%d" % (len(self.core) - n0)
+        self.noop_add_edge_pending = len(self.core) == n0
         return "addEdge" if len(self.core) > n0 else "addEdge-nothing-to-add"
 
     def op_remove_edge(self, fresh):
@@ -1234,6 +1257,7 @@ class Case:
         if st == "third":
             self.judge_same(before, self.observe(), "removeEdge-without-edges-not-a-noop", "noop.obs")
             return "removeEdge-nothing"
+        self.noop_add_edge_pending = False
         if self.edge_cells():
             self.rec.violation("removeEdge/edge-assemblies-left", "cells %s on the 120-degree line still occupied" % (self.edge_cells(),), w)
         if self.ref is not None:
